@@ -179,6 +179,53 @@ func c17Run(c *fw.Ctx, idx int) {
 			sent = append(sent, m)
 		}
 	}
+	// a delivery that stays unacknowledged is written again by the expiry sweeps: every copy carries the
+	// topic the publisher used - also when that topic begins with the tenant's own mount point name
+	for _, t := range tenants {
+		ra, err := nodes[0].MustConnect(kit.ConnectOpts{ClientID: "noack", KeepAlive: 600, Clean: true, User: t})
+		if err != nil {
+			c.Inconclusive(desc + ": connect: " + err.Error())
+			return
+		}
+		defer ra.Close()
+		ra.SetAutoAck(false)
+		if err := ra.Sub1("#", 1); err != nil {
+			c.Inconclusive(desc + ": subscribe: " + err.Error())
+			return
+		}
+		cl.StopPump()
+		cl.Quiesce()
+		cl.StartPump(3 * time.Millisecond)
+		topic, tag := t+"/rtx", fmt.Sprintf("rtx-%d-%s", idx, t)
+		if acked, err := pubs[t].Publish(topic, []byte(tag), 1, false, kit.DefaultWait); !acked {
+			c.Inconclusive(fmt.Sprintf("%s: publish not acknowledged: %v", desc, err))
+			return
+		}
+		if _, _, err := ra.WaitFor(0, 30*time.Second, func(e kit.Event) bool { return e.Pkt.Type == kit.PUBLISH && string(e.Pkt.Payload) == tag }); err != nil {
+			c.Violation("own-tenant-publish-missing", fmt.Sprintf("%s: a QoS 1 subscriber of tenant %s with filter '#' did not receive %q on %q", desc, t, tag, topic), nil)
+			return
+		}
+		far := time.Now()
+		for k := 0; k < 2; k++ {
+			far = far.Add(time.Hour)
+			nodes[0].Ack.Expire(far)
+			ra.Ping(kit.DefaultWait)
+		}
+		copies := 0
+		for _, p := range ra.Publishes() {
+			if string(p.Payload) != tag {
+				continue
+			}
+			copies++
+			if p.Topic != topic {
+				c.Violation("topic-altered:retransmission", fmt.Sprintf("%s: tenant %s published on %q; copy %d written to an unacknowledging subscriber carries topic %q", desc, t, topic, copies, p.Topic),
+					map[string]interface{}{"scenario": idx, "published": topic, "received": p.Topic, "copy": copies})
+				return
+			}
+			ra.Send(kit.EncPubAck(p.ID))
+		}
+		c.Observe("retransmitted_copies_topic_checked", copies)
+	}
 	// wills: one dying session per tenant
 	wills := []sentMsg{}
 	for ti, t := range tenants {
